@@ -1418,6 +1418,9 @@ impl CanonicalizeContext {
 				return mathml;
 			}
 			let base_children = base.children();
+			if base_children.is_empty() {
+				return mathml;		// e.g., an mrow with an 'intent' whose children were all removed -- nothing was split
+			}
 			let i_last_base = base_children.len()-1;
 			let last_child = as_element(base_children[i_last_base]);
 			if last_child.attribute(SPLIT_TOKEN).is_none() {
